@@ -1523,6 +1523,15 @@ def argsort(x, axis=-1, kind=None, **kw):
     return asarray(x).argsort(kind=kind)
 
 
+def diff(x, n=1, axis=-1):
+    xa = asarray(x)
+    if xa.ndim != 1 or n != 1:
+        raise Unsupported("diff on nd arrays / n != 1")
+    c = xa.la.tolist()
+    out = [c[i + 1] - c[i] for i in range(_py_len(c) - 1)]
+    return SArr(_obj_array(out) if out else rnp.empty((0,), dtype=object), xa.dt if xa.dt.kind != "b" else rnp.dtype("i8"))
+
+
 def lexsort(keys, axis=-1):
     """indirect stable sort on several keys, the last key being the primary one"""
     ks = [asarray(k) for k in keys]
